@@ -36,4 +36,10 @@ Definition c13_spec (x : sx) : sx :=
                           (sx_strs (sx_nth 2 o)) (pairs_of_sx (sx_nth 3 o))
                           (sx_bool (sx_nth 4 o)) (sx_strs (sx_nth 5 o)) (pairs_of_sx (sx_nth 6 o))).
 
-Definition entries : list entry := [("C13.model", c13_model); ("C13.spec", c13_spec)].
+(* the fan table of the package-merged graph: (name fan-in fan-out total) *)
+Definition c13_fan_model (x : sx) : sx :=
+  let g := analysis (model_of_sx (sx_nth 0 x)) (sx_strs (sx_nth 1 x)) in
+  L (map (fun r => L [A (fst (fst r)); sx_of_nat (snd (fst r)); sx_of_nat (snd r); sx_of_nat (fan_total r)])
+         (sorted_by_fan merge_package_func g)).
+
+Definition entries : list entry := [("C13.model", c13_model); ("C13.spec", c13_spec); ("C13.fan", c13_fan_model)].
